@@ -42,6 +42,10 @@ pub fn dispatch(op: &str, req: &Value) -> Result<Value, String> {
         return crate::ops_stateres::auth_diff(req);
     }
     #[cfg(feature = "stateres")]
+    if op == "c07:power_graph" {
+        return crate::ops_stateres::power_graph(req);
+    }
+    #[cfg(feature = "stateres")]
     if op == "c07:mainline" {
         return crate::ops_stateres::mainline(req);
     }
